@@ -799,16 +799,18 @@ def o_C08(I):
             alive = e['call'] == 'run'
         if e['kind'] in ('ret', 'dropctx', 'dropfut') or e['kind'] == 'panic' and e['task'] == 'ctx':
             alive = False
-        if e['kind'] == 'in' and e['ctx'] == 'run' and alive and not e['ctxheld']:
+        if e['kind'] == 'in' and e['ctx'] == 'run' and alive:
             p = e['pkt']
             if p is None:
                 continue
+            # (fed while the script holds the context task: owed all the same, due once the task runs again)
+            sg = e['seg'] if not e['ctxheld'] else -1
             if p['type'] == 3 and p['qos'] == 1:
-                owed.append((4, p['pid'], e['seg']))
+                owed.append((4, p['pid'], sg))
             if p['type'] == 3 and p['qos'] == 2:
-                owed.append((5, p['pid'], e['seg']))
+                owed.append((5, p['pid'], sg))
             if p['type'] == 6:
-                owed.append((7, p['pid'], e['seg']))
+                owed.append((7, p['pid'], sg))
         if e['kind'] == 'w' and e['pkt'] is not None and e['pkt']['type'] in (4, 5, 7):
             wrote.append((e['pkt']['type'], e['pkt']['pid'], e['seg']))
             if e['pkt']['reason'] != 0 or e['pkt']['props']:
@@ -823,10 +825,14 @@ def o_C08(I):
         # missing acknowledgements are acceptable only after run() ended
         s = owed[len(a)][2]
         # the packet was fed to a live, not held run(): its acknowledgement is due within the same script step, unless an
-        # earlier packet of the same read ended run() in that step
-        ended = [e['seg'] for e in I.events if e['kind'] in ('ret', 'panic') and e['seg'] == s]
+        # earlier packet of the same read ended run() in that step; fed to a held run(): due by the end of the script unless
+        # run() is still held then, or ended / was cancelled at some point
+        if s >= 0:
+            ended = [e['seg'] for e in I.events if e['kind'] in ('ret', 'panic') and e['seg'] == s]
+        else:
+            ended = 'ctx' in I.held or [e for e in I.events if e['kind'] in ('ret', 'panic', 'dropfut', 'dropctx', 'eof')]
         if not ended:
-            out.append((I.name, s, f'{b[len(a)]} owed for the packet fed here was never written'))
+            out.append((I.name, max(s, 0), f'{b[len(a)]} owed for the packet fed here was never written'))
     return out
 
 
